@@ -143,6 +143,8 @@ var sizesAll = []uint32{0, 1, 2, 3, 5, 8, 13}
 var sizesSmall = []uint32{0, 1, 2, 3, 4, 5}
 var timeouts = []time.Duration{0, 10 * time.Millisecond, 200 * time.Millisecond, 5 * time.Second}
 
+var extVals = [][]string{{"a,b"}, {"a", ""}, {"", "a"}, {"ab"}, {"a;b"}, {"a b"}, {"a, b"}, {"b,a"}, {"a", "b", ""}, {"a|b"}, {"[a b]"}, {"a", "a"}}
+
 func pct(t *core.Tape, s core.Stream, p int) bool { return t.Chance(s, p, 100) }
 
 // comboKey is the model's rendering of "one combination of values for the
@@ -226,6 +228,12 @@ func genScenario(t *core.Tape, prop string, numCPU int) *Scenario {
 			md := map[string][]string{}
 			for _, key := range c.MetadataKeys {
 				v := vals[t.Draw(core.Gen, len(vals))]
+				if t.Chance(core.Ext, 1, 3) {
+					// value lists that differ from the ones above only in how the list is carried:
+					// a key repeated with two values vs. one value with a delimiter in it, an
+					// empty value next to a real one, a value that is the concatenation of two
+					v = extVals[t.Draw(core.Ext, len(extVals))]
+				}
 				if v == nil {
 					continue
 				}
